@@ -114,8 +114,11 @@ def gen_data(rng, N, D, E, filters, shapes=None, int_data=False):
         kinds.append(sh)
         pos = filters is not None and filters[i] is not None and filters[i][0] in ("log_hp", "diff_log_demean")
         scale = float(10.0 ** rng.integers(-2, 3))
-        if tiny_units:
-            scale = float(10.0 ** rng.integers(-13, -8))     # data expressed in small units: every definition here is scale-free or scale-equivariant
+        if tiny_units and not pos:
+            # data expressed in small units: every definition here is scale-free or scale-equivariant.  (Not for coordinates that
+            # feed a log filter: the logarithm turns the unit into a level of -20..-30, and the HP solve's error - conditioning,
+            # about eps * 16 lambda * level - then exceeds the comparison tolerance once inverse-variance weights amplify it.)
+            scale = float(10.0 ** rng.integers(-13, -8))
 
         def one():
             if sh == "normal":
